@@ -133,6 +133,12 @@ def px_rules(ctx: Ctx):
             full = truth(("cmp", "Eq", pos, size0), e.state.facts)
             if full is None:        # the same test spelled as a difference: size - pos == 0
                 full = truth(("cmp", "Eq", ("binop", "Sub", size0, pos), ("const", 0)), e.state.facts)
+            if full is None:        # ... or as an order test: "room left" is pos < size (pos never exceeds size: +1 per bounded store)
+                for op, a, b, room_when in (("Lt", pos, size0, True), ("Gt", size0, pos, True), ("GtE", pos, size0, False), ("LtE", size0, pos, False)):
+                    tv = truth(("cmp", op, a, b), e.state.facts)
+                    if tv is not None:
+                        full = (not tv) if room_when else tv
+                        break
             # (buf + pos)[0] is buf[pos]
             if e.index == ("const", 0) and base[0] == "binop" and base[1] == "Add" and base[3] == pos:
                 e_index = pos
